@@ -7,6 +7,16 @@ verus! {
 //@ include prelude/std_specs.rs
 pub mod u {
 use super::*;
+//@ assume num_traits::<u64 as ToPrimitive>::to_i64 : external crate: Some iff the value fits i64
+#[verifier::external_body]
+fn __u64_to_i64(v: u64) -> (r: Option<i64>)
+    ensures r is Some <==> v < 0x8000_0000_0000_0000, r is Some ==> r.unwrap() as int == v as int
+{ unimplemented!() }
+//@ assume num_traits::<u128 as ToPrimitive>::to_i128 : external crate: Some iff the value fits i128
+#[verifier::external_body]
+fn __u128_to_i128(v: u128) -> (r: Option<i128>)
+    ensures r is Some <==> v < 0x8000_0000_0000_0000_0000_0000_0000_0000, r is Some ==> r.unwrap() as int == v as int
+{ unimplemented!() }
 
 pub mod big_digit {
 //@ extract src/lib.rs :: mod big_digit :: const BITS
@@ -273,6 +283,30 @@ impl BigUint {
         }
 
         Some(ret)
+    }
+//@ end
+
+//@ extract src/biguint/convert.rs :: impl ToPrimitive for BigUint :: fn to_i64 rules=R0,R55 props=C08
+    fn to_i64(&self) -> /*+*/(r: /*-*/Option<i64>/*+*/)/*-*/
+//+{
+        ensures
+            self.wf() ==> (r is Some <==> self.v() < 0x8000_0000_0000_0000),
+            self.wf() && r is Some ==> r.unwrap() as int == self.v() as int,
+//+}
+    {
+        match self.to_u64() { Some(v__) => __u64_to_i64(v__), None => None, }
+    }
+//@ end
+
+//@ extract src/biguint/convert.rs :: impl ToPrimitive for BigUint :: fn to_i128 rules=R0,R55 props=C08
+    fn to_i128(&self) -> /*+*/(r: /*-*/Option<i128>/*+*/)/*-*/
+//+{
+        ensures
+            self.wf() ==> (r is Some <==> self.v() < 0x8000_0000_0000_0000_0000_0000_0000_0000),
+            self.wf() && r is Some ==> r.unwrap() as int == self.v() as int,
+//+}
+    {
+        match self.to_u128() { Some(v__) => __u128_to_i128(v__), None => None, }
     }
 //@ end
 }
